@@ -29,7 +29,11 @@ def run(chk, repo, tier):
     chk.clause('C11-d', 'default polar origin = mask centroid for either parity (shift = centroid - floor(n/2))', 2)
     chk.clause('C11-e', 'rho is scaled by the largest radius over the mask', 1)
     chk.clause('C11-f', 'radial term is the textbook factorial term, summed over k = 0..(n-m)/2', 2)
-    chk.not_decided += ['the Noll index map (an algorithm)', 'R(1) = 1, orthonormality, boundedness',
+    chk.clause('C11-g', 'Noll index map: radial order from the triangular-number formula, position within the row, row of '
+                        '|m| values by parity of n, sign of m from the parity of j (even j cosine, odd j sine)', 6)
+    noll_rules(chk, repo, 'C11-g')
+    chk.not_decided += ['that the Noll map is one-to-one (follows from C11-g only by arithmetic reasoning not done here)',
+                        'R(1) = 1, orthonormality, boundedness',
                         'sign convention of sine modes with caller-supplied theta']
 
     f, paths, _ = analyse(repo, 'zernike.zernike', config={'rho': S('rho'), 'theta': S('theta')})
@@ -189,3 +193,77 @@ def _bare_use(v):
             return any(walk(i) for i in x)
         return False
     return walk(v)
+
+
+def noll_rules(chk, repo, clause):
+    """zernike_index against the reference construction of Noll's ordering:
+    n = ceil((-1+sqrt(1+8j))/2) - 1; position in row r = j - n(n+1)/2 - 1 (from the
+    row start) or r - (n+1) (from its end); the row of |m| is 1,1,3,3,.. (n odd) /
+    0,2,2,4,4,.. (n even); m is negative (sine) exactly for odd j."""
+    f, paths, _ = analyse(repo, 'zernike.zernike_index')
+    j = S('j')
+    n_ref = nf.ceil((Poly.const(-1) + (1 + 8 * j).pow(Fraction(1, 2))) / 2) - 1
+    rets = [p for p in returns(paths) if len(p.conds) >= 3]
+    if len(rets) < 2:
+        raise AnalysisError('zernike_index: general paths not found')
+    refusal = any(p.status == 'raise' and p.exc == 'ValueError' and p.conds and p.conds[-1][0] == nf.app('lt', j, C(1)) for p in paths)
+    chk.ob(clause, 'D-guard', f.key, 'indices below 1 are refused', refusal, '', f.loc())
+    ok_n = ok_r = ok_sign = True
+    det_n = det_r = det_s = ''
+    for p in rets:
+        m_t, n_t = p.ret.items
+        if n_t != n_ref:
+            ok_n, det_n = False, f'n = {fmt(n_t)}; Noll: {fmt(n_ref)}'
+        parity = [(c, pol) for c, pol, _ in p.conds if c in (nf.app('bitand', j, C(1)), nf.app('mod', j, C(2)))]
+        if len(parity) != 1 or not isinstance(m_t, Poly) or len(m_t.terms) != 1:
+            ok_sign, det_s = False, 'the sign of m is not decided by the parity of j'
+            continue
+        coeff = m_t.terms[0][1]
+        if (coeff == -1) != parity[0][1] or abs(coeff) != 1:
+            ok_sign, det_s = False, f'm = {fmt(m_t)[:80]} on the path where j is {"odd" if parity[0][1] else "even"}'
+        ia = [a for a, e in m_t.terms[0][0] if a[0] == 'idx']
+        if len(ia) != 1:
+            ok_r, det_r = False, 'm is not an entry of the row list'
+            continue
+        r = ia[0][2]
+        r_start = j - n_ref * (n_ref + 1) / 2 - 1
+        if r not in (r_start, r_start - (n_ref + 1)):
+            ok_r, det_r = False, f'row position {fmt(r)}; Noll: {fmt(r_start)} (or that minus the row length)'
+    chk.ob(clause, 'N-formula', f.key, 'radial order n from the triangular numbers', ok_n, det_n, f.loc())
+    chk.ob(clause, 'N-formula', f.key, 'position of j within its row', ok_r, det_r, f.loc())
+    chk.ob(clause, 'D-parity', f.key, 'odd j gives the sine (negative m) term, even j the cosine term', ok_sign, det_s, f.loc())
+    # the row of |m| values
+    ok_row, det_row = True, ''
+    n_par = nf.app('bitand', n_ref, C(1))
+    seen_par = set()
+    for p in rets:
+        lps = [lp for lp in p.state.loops if lp['func'] == f.key]
+        if len(lps) != 1:
+            ok_row, det_row = False, 'row construction loop not found'
+            continue
+        lp = lps[0]
+        par = [pol for c, pol, _ in p.conds if c == n_par]
+        if len(par) != 1:
+            ok_row, det_row = False, 'the row start is not chosen by the parity of n'
+            continue
+        seen_par.add(par[0])
+        want_pre = Tup([C(1), C(1)], 'list') if par[0] else Tup([C(0)], 'list')
+        if lp['pre'].get('row_m') != want_pre:
+            ok_row, det_row = False, f'row for {"odd" if par[0] else "even"} n starts {lp["pre"].get("row_m")!r}'
+        it = lp['iter'].single_atom() if isinstance(lp['iter'], Poly) else None
+        if it is None or not is_app(it, 'range') or tuple(it[2]) != (nf.floor(n_ref / 2),):
+            ok_row, det_row = False, f'row is extended {fmt(lp["iter"])} times; Noll: floor(n/2) pairs'
+        apps = [e for bs in lp['states'] for e in bs.events[lp['n_pre_events']:]
+                if e.kind == 'write' and e.data.get('how') == 'method:append']
+        if len(apps) != 2:
+            ok_row, det_row = False, f'{len(apps)} appends per step; Noll rows grow by one pair (|m|+2 twice)'
+        else:
+            a0 = apps[0].data['args'][0]
+            last = nf.index(apps[0].target, C(-1))
+            if a0 != last + 2:
+                ok_row, det_row = False, f'first appended value {fmt(a0)}; expected previous + 2'
+    ok_row = ok_row and seen_par == {True, False}
+    chk.ob(clause, 'N-formula', f.key, 'row of |m|: 1,1,3,3,... for odd n and 0,2,2,4,4,... for even n', ok_row, det_row, f.loc())
+    chk.ob(clause, 'N-formula', f.key, 'piston: j = 1 (n = 0) gives m = 0',
+           any(p.ret.items[0] == nf.ZERO and any(c == nf.app('eq', n_ref, C(0)) and pol for c, pol, _ in p.conds)
+               for p in returns(paths) if isinstance(p.ret, Tup)), '', f.loc())
